@@ -914,6 +914,20 @@ pub fn query_text(r: &mut Rng) -> Blob {
             "/*! 40101 */", "/*+ MAX_EXECUTION_TIME(5) */ ",
         ];
         let tagged: &[&str] = &["SELECT @@max_allowed_packet", "select @@version_comment limit 1", "USE `shop`;", "use db", "SELECT 1", "SELECT @@socket"];
+        // statements that clients and connectors send by themselves (after connecting, after a
+        // database switch, when pooling): none of them is the library's to answer
+        let housekeeping: &[&str] = &[
+            "SELECT DATABASE()", "select database()", "SELECT DATABASE();", "SELECT USER()", "SELECT CURRENT_USER()", "SELECT VERSION()",
+            "SELECT CONNECTION_ID()", "SHOW WARNINGS", "SHOW DATABASES", "SHOW TABLES", "SET NAMES utf8mb4", "SET autocommit=1", "SET NAMES 'utf8'",
+            "BEGIN", "COMMIT", "ROLLBACK", "START TRANSACTION", "SELECT 1", "select 1", "DO 1", "KILL QUERY 1", "SET character_set_results = NULL",
+            "SHOW VARIABLES LIKE 'max_allowed_packet'", "SELECT LAST_INSERT_ID()", "SELECT ROW_COUNT()", "SELECT FOUND_ROWS()", "PING", "select $$",
+        ];
+        if r.chance(1, 6) {
+            let v = r.pick(housekeeping).as_bytes().to_vec();
+            if crate::model::route_query(&v) == crate::model::QRoute::Query {
+                return Blob::Lit(v);
+            }
+        }
         if r.chance(1, 5) {
             let mut t = String::from(*r.pick(tags));
             t.push_str(*r.pick(tagged));
